@@ -38,6 +38,16 @@ def alg_cases(rng, tier):
         gt = gen.graph_tokens(g)
         for alg in ("fvs", "iso"):
             cases.append(("A %s D 0 %s" % (alg, gt), g, "sparse-ties"))
+    # small DENSE graphs with distinct weights in many edge orders, for the signed variant only: supports grow to three and more entries while n stays
+    # small, searches are pruned by the running limit and come back empty — the inputs on which the bookkeeping of the hidden-edge heuristic matters
+    # (seeded changes C08/r3m2, C02/r4m2, r5m2, r6m2: the erase of the processed signed edge skipped after an empty search)
+    for i in range(900 if tier == "quick" else 6000):
+        n = rng.randint(5, 8)
+        pairs = [(u, v) for u in range(n) for v in range(u + 1, n)]; rng.shuffle(pairs)
+        m = rng.randint(n + 2, min(len(pairs), 2 * n + 3))
+        es = [((u, v) if rng.random() < 0.5 else (v, u)) + (rng.randint(1, 100),) for (u, v) in pairs[:m]]
+        g = (n, es)
+        cases.append(("A signed %s 0 %s" % ("I" if i % 4 == 0 else "D", gen.graph_tokens(g)), g, "dense-small"))
     return cases
 
 
